@@ -1474,7 +1474,7 @@ func (c *Conn) requestHeader(apiKey apiKey, apiVersion apiVersion, correlationID
 	}
 }
 
-func (c *Conn) ApiVersions() ([]ApiVersion, error) {
+func (c *Conn) ApiVersions() (versions []ApiVersion, err error) {
 	deadline := &c.rdeadline
 
 	if deadline.deadline().IsZero() {
@@ -1506,6 +1506,14 @@ func (c *Conn) ApiVersions() ([]ApiVersion, error) {
 		return nil, err
 	}
 	defer lock.Unlock()
+	defer func() {
+		// A response that could not be read entirely leaves the connection
+		// in the middle of a frame, it must not be used again.
+		var kafkaError Error
+		if err != nil && !errors.As(err, &kafkaError) {
+			c.conn.Close()
+		}
+	}()
 
 	var errorCode int16
 	if size, err = readInt16(&c.rbuf, size, &errorCode); err != nil {
